@@ -115,7 +115,7 @@ class AtomTypeModify(transformation):
                              TotalValenceEqualsQueryAtom(valence+self.valence))
             atom.ExpandQuery(rdqueries.
                              FormalChargeEqualsQueryAtom(self.charge))
-            comb_mol.ReplaceAtom(self.idx, atom)
+            comb_mol.ReplaceAtom(mapped_index[self.idx], atom)
 
         atom.SetNumRadicalElectrons(self.radical)
         atom.SetFormalCharge(self.charge)
